@@ -2,6 +2,8 @@ package main
 
 import (
 	"fmt"
+	"os"
+	"path/filepath"
 	"strings"
 
 	"verif/harness/core"
@@ -430,6 +432,9 @@ func runC10(ctx *core.Ctx, idx int) *core.Result {
 	if idx%40 == 1 {
 		c10GuardOrder(ctx, idx, res)
 	}
+	if idx%40 == 2 {
+		c10RenameThenGuard(ctx, idx, res)
+	}
 	return res
 }
 
@@ -574,4 +579,63 @@ func c10FileSweep(ctx *core.Ctx, idx int, res *core.Result, c c10Cell) {
 		}
 	}
 	res.Sig("file-sweep", idx)
+}
+
+// c10RenameThenGuard: the package a guard speaks of is the package of the file as it is when the change gets its turn: an
+// earlier change of the same patch file (or of an earlier patch file) that renamed the package makes a guard for the
+// new name hold and a guard for the old name fail; a file that carries the new name from the start is not of the old
+// package.
+func c10RenameThenGuard(ctx *core.Ctx, idx int, res *core.Result) {
+	r := ctx.Rand("c10rename", idx)
+	c1 := "@@\nvar x expression\n@@\n-package pk\n+package pk2\n\n-first(x)\n+firstDone(x)\n"
+	guardNew := r.Intn(2) == 0
+	gname := map[bool]string{true: "pk2", false: "pk"}[guardNew]
+	c2 := "@@\nvar x expression\n@@\n package " + gname + "\n\n-target(x)\n+repl(x)\n"
+	filePkg := []string{"pk", "pk2", "pk_test"}[r.Intn(3)]
+	hasFirst := r.Intn(3) > 0
+	src := "package " + filePkg + "\n\nfunc f() {\n"
+	if hasFirst {
+		src += "\tfirst(0)\n"
+	}
+	src += "\ttarget(1)\n}\n"
+	renamed := filePkg == "pk" && hasFirst
+	pkgAfter := filePkg
+	if renamed {
+		pkgAfter = "pk2"
+	}
+	wantRepl := pkgAfter == gname
+	pt := c1 + "\n" + c2
+	runs := applyAPI(pt, []string{src})
+	if cr, _ := applyCLI(ctx, pt, []string{src}); len(cr) == 1 {
+		runs = append(runs, cr[0])
+	}
+	// the same two changes as two patch files
+	dir, _ := os.MkdirTemp(ctx.Tmp, "c10rn")
+	defer os.RemoveAll(dir)
+	os.WriteFile(filepath.Join(dir, "c1.patch"), []byte(c1), 0o644)
+	os.WriteFile(filepath.Join(dir, "c2.patch"), []byte(c2), 0o644)
+	os.WriteFile(filepath.Join(dir, "f.go"), []byte(src), 0o644)
+	cr := ctx.RunCLI(core.CLIOpts{Dir: dir, Args: []string{"-p", "c1.patch", "-p", "c2.patch", "f.go"}})
+	b, _ := os.ReadFile(filepath.Join(dir, "f.go"))
+	runs = append(runs, engineRun{Out: string(b), Err: map[bool]string{true: "", false: string(cr.Stderr)}[cr.Exit == 0]})
+	for ri, run := range runs {
+		res.Evals++
+		res.Ob("rename-then-guard-runs", 1)
+		rep := replayFiles(pt, src, run.Out)
+		if run.Pan != "" {
+			res.Violate("C10/engine-panic:"+core.PanicSignature(run.Pan), run.Pan, rep)
+			return
+		}
+		if run.Err != "" {
+			res.Violate("C10/engine-error", "rename then guard: "+run.Err, rep)
+			return
+		}
+		gotRepl := strings.Contains(run.Out, "repl(1)")
+		gotPkg := strings.TrimPrefix(strings.SplitN(run.Out, "\n", 2)[0], "package ")
+		if gotRepl != wantRepl || gotPkg != pkgAfter {
+			res.Violate("C10/guard-after-package-rename", fmt.Sprintf("[delivery %d] file package %s, first() present %v, later change guarded by 'package %s': want package %s and rewritten=%v, got package %s and rewritten=%v", ri, filePkg, hasFirst, gname, pkgAfter, wantRepl, gotPkg, gotRepl), rep)
+			return
+		}
+	}
+	res.Sig("rename-then-guard", filePkg, hasFirst, guardNew)
 }
